@@ -82,6 +82,10 @@ def diffEnumTypes (o n : SchemaD) : List Change :=
     ++ ((ne.values.filter fun nv => (oe.values.find? (·.name == nv.name)).isNone).map fun nv =>
         mk "EnumValueAdded" [("enum", ne.name), ("value", nv.name)])
 
+/-- the argument / input field BECOMES required (its default value was removed from a non-null type): the
+    `required` flag of the three `*DefaultValueChange` classes (`_default_change_severity`) -/
+def becameRequired (oa na : ArgD) : Bool := ArgD.required na && !ArgD.required oa
+
 /-- the default-value comparison shared by arguments and input fields -/
 def defaultChanged (oa na : ArgD) : Bool :=
   (oa.hasDefault && !na.hasDefault) || (!oa.hasDefault && na.hasDefault)
@@ -94,7 +98,7 @@ def diffDirectiveArguments (od nd : DirectiveD) : List Change :=
     | some na =>
       let k := [("directive", od.name), ("new_argument", na.name), ("old_argument", oa.name)]
       if !safeIn oa.type na.type then some (mk "DirectiveArgumentChangedType" k)
-      else if defaultChanged oa na then some (mk "DirectiveArgumentDefaultValueChange" k)
+      else if defaultChanged oa na then some (mk "DirectiveArgumentDefaultValueChange" k (becameRequired oa na))
       else none)
   ++ ((nd.args.filter fun na => (od.args.find? (·.name == na.name)).isNone).map fun na =>
       mk "DirectiveArgumentAdded" [("argument", na.name), ("directive", nd.name)] (ArgD.required na))
@@ -119,7 +123,7 @@ def diffFieldArguments (parent : String) (of nf : FieldD) : List Change :=
     | some na =>
       let k := [("field", of.name), ("new_argument", na.name), ("old_argument", oa.name), ("type", parent)]
       if !safeIn oa.type na.type then some (mk "FieldArgumentChangedType" k)
-      else if defaultChanged oa na then some (mk "FieldArgumentDefaultValueChange" k)
+      else if defaultChanged oa na then some (mk "FieldArgumentDefaultValueChange" k (becameRequired oa na))
       else none)
   ++ ((nf.args.filter fun na => (of.args.find? (·.name == na.name)).isNone).map fun na =>
       mk "FieldArgumentAdded" [("argument", na.name), ("field", nf.name), ("type", parent)] (ArgD.required na))
@@ -161,7 +165,7 @@ def diffInputTypes (o n : SchemaD) : List Change :=
       | some nf =>
         let k := [("new_field", nf.name), ("old_field", of.name), ("type", ot.name)]
         if !safeIn of.type nf.type then some (mk "InputFieldChangedType" k)
-        else if defaultChanged of nf then some (mk "InputFieldDefaultValueChange" k)
+        else if defaultChanged of nf then some (mk "InputFieldDefaultValueChange" k (becameRequired of nf))
         else none)
     ++ ((nt.inputFields.filter fun nf => (ot.inputFields.find? (·.name == nf.name)).isNone).map fun nf =>
         mk "InputFieldAdded" [("field", nf.name), ("type", nt.name)] (ArgD.required nf))
